@@ -1,13 +1,16 @@
 package main
 
 import (
+	"context"
 	"crypto/sha256"
 	"encoding/hex"
 	"encoding/json"
 	"fmt"
 	"os"
+	"os/exec"
 	"path/filepath"
 	"strings"
+	"time"
 )
 
 // stats is what every sub-command reports back to bin/check (merged into the evidence file).
@@ -91,7 +94,9 @@ func readReplayCase(path string, into interface{}) error {
 }
 
 // writeShards writes cases_000.v, cases_001.v, … each holding at most per cases:
-//   <prelude> Definition cases : list <typ> := [ … ]. <defs>
+//
+//	<prelude> Definition cases : list <typ> := [ … ]. <defs>
+//
 // defs must define and Print bad_model / bad_oracle (lists of failing case indices within the shard).
 func writeShards(dir, prelude, typ string, items []string, defs string, per int) error {
 	old, _ := filepath.Glob(filepath.Join(dir, "cases_*.v"))
@@ -116,3 +121,31 @@ func writeShards(dir, prelude, typ string, items []string, defs string, per int)
 
 func f32bits(f float32) uint32     { return mathFloat32bits(f) }
 func f32frombits(b uint32) float32 { return mathFloat32frombits(b) }
+
+// runIsolated re-executes this binary on one case (written as a replay envelope) in a child process with an
+// address-space limit and a timeout.  A child that dies (fatal error, OOM, timeout) is reported as crashed.
+func runIsolated(id string, caseObj interface{}, a *args, idx int) (st *stats, crashed bool, tail string) {
+	dir := filepath.Join(a.out, fmt.Sprintf("iso_%04d", idx))
+	os.MkdirAll(dir, 0755)
+	defer os.RemoveAll(dir)
+	rp := filepath.Join(dir, "case.json")
+	writeJSON(rp, map[string]interface{}{"case": caseObj})
+	exe, _ := os.Executable()
+	ctx, cancel := context.WithTimeout(context.Background(), 60*time.Second)
+	defer cancel()
+	cmd := exec.CommandContext(ctx, "sh", "-c", fmt.Sprintf("ulimit -v 3000000; exec %s %s -replay %s -out %s -tier %s -seed %d", exe, id, rp, dir, a.tier, a.seed))
+	out, err := cmd.CombinedOutput()
+	if err != nil {
+		t := string(out)
+		if len(t) > 600 {
+			t = t[:600]
+		}
+		return nil, true, fmt.Sprintf("%v: %s", err, t)
+	}
+	var s stats
+	b, rerr := os.ReadFile(filepath.Join(dir, "stats.json"))
+	if rerr != nil || json.Unmarshal(b, &s) != nil {
+		return nil, true, "child wrote no stats"
+	}
+	return &s, false, ""
+}
